@@ -113,6 +113,10 @@ func (v *VMValue) ToJSONRaw(save map[*VMValue]bool) ([]byte, error) {
 
 	case VMTypeNativeFunction:
 		fd, _ := v.ReadNativeFunctionData()
+		if _, ok := builtinValues[fd.Name]; !ok {
+			// 绑定方法(如 [1,2].kh)等无法按名字恢复的内置函数：明确报错，而不是写出一个读不回来的快照
+			return nil, errors.New("值错误: 内置函数 " + fd.Name + " 无法序列化")
+		}
 		return json.Marshal(struct {
 			TypeId VMValueType `json:"t"`
 			Value  struct {
